@@ -163,6 +163,58 @@ def handle : Handler := fun op inp impl =>
       why := if holds then "" else
         if !rtAll then "strict " ++ str (field inp "codec") ++ " codec does not decode what it encodes"
         else "unknown field accepted" }
+  | "srvtrailers" =>
+    let code := int (field inp "code")
+    let msg := unhex (str (field inp "msg"))
+    let web := bool (field inp "web")
+    -- the Connect error the server renders: details carry the default prefix + type name
+    let details : List Detail := (arr (field inp "details")).map fun d =>
+      { url := anyPrefix ++ (str (field d "type")).toList, value := unhex (str (field d "val")) }
+    let e : ProtoErr := { code := code, message := some ((String.fromUTF8? ⟨msg.toArray⟩).getD ""), details := details }
+    let m := grpcStatusTrailers (protoToConnect e)
+    -- the implementation's trailers, parsed back
+    let statuses := (strList (field impl "status")).map unhex
+    let messages := (strList (field impl "message")).map unhex
+    let bins := nat (field impl "bins")
+    let jb := field impl "bin"
+    let bin : Option StatusBin := if isNull jb then none else some
+      { code := int (field jb "code"), message := unhex (str (field jb "msg")),
+        details := (arr (field jb "details")).map fun d => { url := (str (field d "url")).toList, value := unhex (str (field d "val")) } }
+    let decimal (b : Bytes) : Option Int := (String.ofList (b.map fun c => Char.ofNat c.toNat)).toInt?
+    let t? : Option StatusTrailers := match statuses, messages with
+      | [st], [mg] => (decimal st).bind fun c =>
+          if bins == 0 then some { status := c, message := mg, bin := none }
+          else if bins == 1 then bin.map fun b => { status := c, message := mg, bin := some b }
+          else none
+      | _, _ => none
+    let claimed := DefaultPrefixed e && e.getMessage.toUTF8.toList == msg
+    let holds := !claimed || (match t? with | some t => trailersPreserve code msg details t | none => false)
+    -- custom trailers follow the status trailers (end-of-stream block), one line per value
+    let other := (parseHs (field impl "other")).map fun h => (h.name, h.values)
+    let mOther := if web then (parseHs (field inp "trailers")).flatMap fun h => h.values.map fun v => (lower h.name, [v]) else []
+    { agree := t? == some m && other == mOther, holds := holds,
+      nontrivial := claimed && (msg.any shouldEscape || !details.isEmpty),
+      model := Json.mkObj [("status", toJson m.status), ("message", hex m.message),
+        ("bin", match m.bin with | none => Json.null | some b => Json.mkObj [("code", toJson b.code), ("msg", hex b.message)])],
+      cls := if web then "endstream-block" else "trailers",
+      why := if holds then "" else "reference server's status trailers do not carry the error's code, message and details (grpc-status / grpc-message / grpc-status-details-bin read back)" }
+  | "srve2e" =>
+    let fail := str (field impl "fail")
+    if fail != "" then { agree := false, holds := true, why := "harness: " ++ fail } else
+    let code := int (field inp "code")
+    let msg := str (field inp "msg")
+    let dets (j : Json) : List (String × String) := (arr j).map fun d => (str (field d "type"), str (field d "val"))
+    let want := dets (field inp "details")
+    let got := dets (field impl "details")
+    -- the server appends the request info as one more detail (unary errors)
+    let reqInfo := "connectrpc.conformance.v1.ConformancePayload.RequestInfo"
+    let detailsOk := got.length == want.length + 1 && got.take want.length == want && ((got.drop want.length).map (·.1)) == [reqInfo]
+    let holds := bool (field impl "isErr") && int (field impl "code") == code && str (field impl "msg") == msg && detailsOk
+    let hdrOk := strList (field impl "header") == (if bool (field inp "headers") then ["h1", "h2"] else [])
+      && strList (field impl "trailer") == (if bool (field inp "trailers") then ["t1"] else [])
+    { agree := holds && hdrOk, holds := holds, nontrivial := bool (field inp "headers"),
+      cls := "e2e:" ++ str (field inp "proto") ++ (if bool (field inp "headers") then "+headers" else ""),
+      why := if holds then "" else "the error a connect-go client receives from the reference server is not the error of the response definition (code, message, details)" }
   | _ => bad ("C18: unknown op " ++ op)
 
 end ConfModel.Driver.C18
